@@ -28,6 +28,7 @@ Init ==
     /\ now = [h |-> 0, t |-> 0] /\ out = <<>>
     /\ init0 = [m |-> members, t |-> total] /\ hist = <<>>
     /\ ops = 0 /\ sched = <<>>
+    /\ \A i \in 1..20 : TLCSet(100 + i, 0)
     /\ ev = [act |-> "reset", by |-> "env", ok |-> TRUE]
     /\ cfgv = IF Flavour = "group"
               THEN [flavour |-> "group", admin |-> ad, wscale |-> 0,
@@ -149,7 +150,20 @@ NoMaxW == 0 - 1
 
 EmitSchedule ==
   (GenMode /\ GenFail /\ Len(sched) = GenDepth) => PrintT(<<"SCHED", ToJson([cfg |-> cfgv, steps |-> sched])>>)
+\* corner states whose BFS path is always emitted (once per worker), whatever the sampling rate
+Goals == <<
+  \E a \in Addr : members[a] = 0,                                                 \* a member with weight zero
+  Len(hooks) = 2 /\ \E a \in Addr : init0.m[a] >= 0 /\ members[a] = -1,           \* removal with two hooks registered
+  admin = "none" /\ Len(hooks) > 0,                                               \* frozen with hooks
+  \E a \in Addr : Len(claims[a]) >= 2,                                            \* two claims of one user
+  \E a \in Addr : stake[a] = 0 /\ Len(claims[a]) > 0,                             \* unbonded everything
+  \E a \in Addr : cfg.maxW # -1 /\ members[a] = cfg.maxW,                         \* weight at the u64 bound
+  \E a \in Addr : stake[a] > 0 /\ members[a] = -1,                                \* staked below the minimum bond
+  now.h >= 2 /\ \E a \in Addr : hist[1].m[a] # hist[2].m[a]                        \* membership changed between two block starts
+>>
+NewGoal == \E i \in 1..Len(Goals) : Goals[i] /\ TLCGet(100 + i) = 0 /\ TLCSet(100 + i, 1)
 EmitSampled ==
-  (GenMode /\ ~GenFail /\ Len(sched) > 0 /\ TLCGet("distinct") % SampleK = 0) =>
-     PrintT(<<"SCHED", ToJson([cfg |-> cfgv, steps |-> sched])>>)
+  (GenMode /\ ~GenFail /\ Len(sched) > 0) =>
+     (IF NewGoal \/ TLCGet("distinct") % SampleK = 0
+      THEN PrintT(<<"SCHED", ToJson([cfg |-> cfgv, steps |-> sched])>>) ELSE TRUE)
 =============================================================================
